@@ -109,14 +109,17 @@ func (env *specEnv) evalBool(e Expr) Term {
 		defer func() {
 			env.inEval = false
 			if r := recover(); r != nil {
+				s := e.String()
+				if len(s) > 90 {
+					s = s[:90] + "..."
+				}
 				if se, ok := r.(specErr); ok {
-					s := e.String()
-					if len(s) > 90 {
-						s = s[:90] + "..."
-					}
 					panic(specErr(string(se) + "  [while evaluating: " + s + "]"))
 				}
-				panic(r)
+				if _, ok := r.(unsupported); ok {
+					panic(r)
+				}
+				panic(specErr(fmt.Sprintf("cannot evaluate (%v)  [while evaluating: %s]", r, s)))
 			}
 		}()
 	}
